@@ -34,7 +34,13 @@ def _call_periodic(loop: asyncio.BaseEventLoop, name, interval, callback):
     start = loop.time()
 
     def run(handle, fn=callback):
-        r = fn()
+        try:
+            r = fn()
+        except BaseException:
+            # a callback that fails ends its timer (nothing is re-armed): say so, so that .timerc
+            # does not report having stopped a timer that was no longer running
+            handle.cancel()
+            raise
         with handle.lock:
             if handle.cancelled:
                 # .timerc was issued while the callback ran (from inside it or from another thread): do not re-arm
